@@ -1139,3 +1139,63 @@ func init() {
 		Doc: "which slot each argument is copied to: wherever EvalCode copies an element from the positional arguments or the defaults into the fast locals or the *args tuple (A[ia] = B[ib], also through the element variable of a range over B[lo:]), the offset ia − ib — computed as a linear form with single-definition locals resolved and parameters named by position — is the one the binding algorithm fixes (argument i to slot i; surplus argument i to tuple position i − n; default i to slot Argcount − len(defaults) + i); loop bounds and the keyword search are not decided here",
 		Run: runBinderTransfers})
 }
+
+// ---- C12.R13: the layout is repeated until it settles ----
+//
+// Jump arguments depend on positions and positions on the widths of jump arguments: the assembler repeats its layout pass
+// until a pass moves nothing. Every call of Instructions.Pass in Assemble therefore sits in a loop and its result (did
+// anything move?) is used — a fixed number of passes "because nothing can need widening here" leaves jumps resolved
+// against positions that a later widening has shifted.
+func runLayoutSettles(c *Ctx, r *Rep) {
+	p := c.MustPkg("compile")
+	info := p.TypesInfo
+	fd0 := c.MethodDecl("compile", "Instructions", "Assemble")
+	pass := c.Method("compile", "Instructions", "Pass")
+	if fd0 == nil || pass == nil {
+		r.undecided("settle|anchor", token.NoPos, "compile.Instructions.Assemble / Pass not found")
+		return
+	}
+	r.analysed("(compile.Instructions).Assemble")
+	fd := c.Expand(p, fd0)
+	n := 0
+	var stack []ast.Node
+	ast.Inspect(fd.Body, func(nd ast.Node) bool {
+		if nd == nil {
+			stack = stack[:len(stack)-1]
+			return true
+		}
+		stack = append(stack, nd)
+		call, ok := nd.(*ast.CallExpr)
+		if !ok || Callee(info, call) != pass {
+			return true
+		}
+		n++
+		inLoop := false
+		for _, s := range stack {
+			switch s.(type) {
+			case *ast.ForStmt, *ast.RangeStmt:
+				inLoop = true
+			}
+		}
+		_, discarded := stack[len(stack)-2].(*ast.ExprStmt)
+		key := "settle|(compile.Instructions).Assemble|call of Pass"
+		switch {
+		case !inLoop:
+			r.bad(key, call.Pos(), "Assemble calls the layout pass outside the loop that repeats it until nothing moves: a fixed number of passes leaves the jumps resolved before a late widening (an EXTENDED_ARG that a jump or a large MAKE_FUNCTION argument turns out to need) pointing 3 or 6 bytes short of their labels")
+		case discarded:
+			r.bad(key, call.Pos(), "Assemble discards the result of the layout pass (did anything move?): the loop cannot know whether positions have settled")
+		default:
+			r.ok(key, call.Pos(), "inside the settling loop, result used")
+		}
+		return true
+	})
+	if n == 0 {
+		r.undecided("settle|anchor", fd0.Pos(), "Assemble no longer calls Instructions.Pass")
+	}
+}
+
+func init() {
+	register(&Rule{ID: "C12.R13", Prop: "C12", Floor: 1,
+		Doc: "the layout is repeated until it settles: every call of Instructions.Pass in Assemble sits inside a loop and its result (did anything move?) is used — no fixed number of passes on a fast path; together with C11.R14 (widths only grow) and C12.R10 (order inside a pass) this is what makes every jump land on its label",
+		Run: runLayoutSettles})
+}
